@@ -82,6 +82,15 @@ THEOREMS = [
     "Pydjinni.Front.source_roundtrip_good",
     "Pydjinni.Front.layout_independence",
     "Pydjinni.Front.source_injective",
+    "Pydjinni.Front.lex_starts_increasing",
+    "Pydjinni.Front.parseText_refPositionsDistinct",
+    "Pydjinni.Front.interface_sound",
+    "Pydjinni.Front.function_sound",
+    "Pydjinni.Front.errorDomain_sound",
+    "Pydjinni.Front.content_sound",
+    "Pydjinni.Front.file_sound",
+    "Pydjinni.Front.parseFile_iff_print",
+    "Pydjinni.Front.parseText_iff_render",
 ]
 LEVEL = "proof"
 
